@@ -1187,7 +1187,9 @@ int __wrap_gethostname(char *name, size_t len)
 char *__wrap_blkid_get_devname(void *cache, const char *token, const char *value)
 {
 	sim_init();
-	if (P.active && P.extjournal[0])
+	/* only the lookup of a journal device by UUID is answered from the plan; a plain device name
+	 * (e2fsck and tune2fs resolve their device argument through blkid too) goes to the real library */
+	if (P.active && P.extjournal[0] && token && value && !strcmp(token, "UUID"))
 		return strdup(P.extjournal);
 	return __real_blkid_get_devname(cache, token, value);
 }
